@@ -347,6 +347,13 @@ NP_ELEMENTWISE = {"sqrt", "cos", "sin", "tan", "exp", "log", "log10", "arctan2",
 ALLOC = {"zeros": 0, "ones": 1, "empty": None}
 
 
+def norm_text_(e) -> str:
+    try:
+        return ast.unparse(e)
+    except Exception:  # pragma: no cover
+        return ""
+
+
 class KEval:
     def __init__(self, project: Project, max_depth: int = 5):
         self.p = project
@@ -607,6 +614,20 @@ class KEval:
                 if isinstance(iv, ast.Name):
                     env[iv.id] = Poly.sym(iv.id)
                 self.bind_target(xv, self.element_of(seq, Poly.sym(name)), env)
+        elif isinstance(it, ast.Call) and norm_text_(it.func) in ("itertools.combinations", "combinations") and len(it.args) == 2 and isinstance(it.args[1], ast.Constant) and it.args[1].value == 2 \
+                and isinstance(it.args[0], ast.Call) and isinstance(it.args[0].func, ast.Name) and it.args[0].func.id == "range" and len(it.args[0].args) == 1 \
+                and isinstance(st.target, ast.Tuple) and len(st.target.elts) == 2 and all(isinstance(x, ast.Name) for x in st.target.elts):
+            # for i, j in combinations(range(n), 2)  is  for i in range(n): for j in range(i + 1, n)
+            n_ = self.scalar(self.ev(it.args[0].args[0], env, S, f, guards, loops, depth))
+            iv, jv = st.target.elts[0].id, st.target.elts[1].id
+            outer = Loop(iv, ZERO, n_, ONE, st)
+            outer.depth = len(loops)
+            outer.outer = loops
+            S.loops.append(outer)
+            loops = loops + (outer,)
+            lp = Loop(jv, Poly.sym(iv) + ONE, n_, ONE, st)
+            env[iv] = Poly.sym(iv)
+            env[jv] = Poly.sym(jv)
         elif isinstance(it, ast.Call) and isinstance(it.func, ast.Name) and it.func.id == "zip" and "zip" not in env and isinstance(st.target, ast.Tuple) and len(st.target.elts) == len(it.args) >= 2 \
                 and not it.keywords and all(isinstance(self.ev(a_, env, S, f, guards, loops, depth), Ref) for a_ in it.args):
             # `for a, b in zip(A, B)` over arrays is an index loop over the first array's extent (numpy kernels zip equally long arrays): a = A[k], b = B[k]
